@@ -165,6 +165,10 @@ func (g *c07Gen) doc() J {
 		"plain":  J{"type": "object", "additionalProperties": J{"type": "string", "nullable": true}},
 		"labels": J{"type": "object", "additionalProperties": J{"type": "string", "enum": []interface{}{"a", "b"}, "nullable": true}},
 		"nested": J{"type": "object", "additionalProperties": J{"type": "object", "nullable": true, "properties": J{"x": J{"type": "string"}}, "additionalProperties": J{"type": "integer"}}}}}
+	// a union that has members of its own and additional ones: the 64-bit member must not pass through a float on its way
+	schemas["FixD"] = J{"type": "object", "required": []interface{}{"id"}, "additionalProperties": true,
+		"properties": J{"id": J{"type": "integer", "format": "int64"}, "title": J{"type": "string"}},
+		"oneOf":      []interface{}{J{"type": "object", "properties": J{"m1": J{"type": "string"}}}}}
 	return J{"openapi": "3.0.3", "info": J{"title": "t", "version": "1"}, "paths": J{}, "components": J{"schemas": schemas}}
 }
 
@@ -241,7 +245,24 @@ func (g *c07Inst) value(s J, depth int) interface{} {
 		return out
 	}
 	if one, ok := s["oneOf"].([]interface{}); ok {
-		return g.value(one[r.Intn(len(one))].(J), depth)
+		mv := g.value(one[r.Intn(len(one))].(J), depth)
+		if _, has := s["properties"]; has {
+			// a union with members of its own: the chosen member's fields plus the union's own (and additional) ones
+			own := J{}
+			for k, v := range s {
+				if k != "oneOf" {
+					own[k] = v
+				}
+			}
+			mo, ok1 := mv.(map[string]interface{})
+			oo, ok2 := g.value(own, depth).(map[string]interface{})
+			if ok1 && ok2 {
+				for k, v := range oo {
+					mo[k] = v
+				}
+			}
+		}
+		return mv
 	}
 	if en, ok := s["enum"].([]interface{}); ok {
 		return en[r.Intn(len(en))]
